@@ -6,7 +6,7 @@
 EXTENDS TypeGraph, Tables, TLC, Json, SequencesExt
 CONSTANTS NTypes, Level
 I == INSTANCE Graph WITH LookupInOwnTypeTable <- TRUE        \* the pinned tree's recursion check
-CONSTANT DropRequiredAtCut
+CONSTANTS DropRequiredAtCut, ShiftItemsAtCut
 X == INSTANCE ExBuild
 R(n, v) == [n |-> n, v |-> v]
 BV(b) == [t |-> "bool", bv |-> b]
@@ -29,6 +29,8 @@ Bodies ==
 \cup {Obj(<<P(Ka, Ref(<<x>>, <<>>))>>, <<>>) : x \in Targets}
 \cup {Obj(<<P(Ka, Ref(<<x>>, <<OptR>>))>>, <<>>) : x \in Targets}
 \cup {Arr(<<Ref(<<x>>, <<>>)>>, <<>>) : x \in Targets}
+\cup {Arr(<<Ref(<<x>>, <<>>), One>>, <<>>) : x \in Targets}                       \* a reference item followed by another item (positions)
+\cup {Obj(<<P(Ka, Arr(<<Ref(<<x>>, <<>>), One>>, <<>>))>>, <<>>) : x \in Targets \ {"@missing"}}
 \cup {Obj(<<P(Ka, Ref(<<x>>, <<>>)), P(Kb, Ref(<<y>>, <<OptR>>))>>, <<>>) : x \in Targets \ {"@missing"}, y \in Targets \ {"@missing"}}
 \cup (IF Level = 2 THEN
         {Lit(NumD(N1), <<R("or", [t |-> "list", items |-> <<TRef(x), IdV("integer")>>])>>) : x \in Targets}
